@@ -25,9 +25,45 @@ use crate::{
     wire::{self, *},
 };
 
+// ---------------------------------------------------------------- watchdog
+//
+// A case that never returns (a busy loop or a deadlock in the library) cannot be caught by
+// `catch_unwind`.  A watchdog thread notices that one case has been running for too long,
+// names it on stderr (`HANG\t<case>`) and ends the process; `bin/check` turns that into a
+// violation with the case as its failing input.
+
+static CURRENT_CASE: Mutex<Option<(std::time::Instant, String)>> = Mutex::new(None);
+
+/// seconds a single case may take (real-time ops are bounded by their own timeouts well below)
+pub const CASE_DEADLINE_S: u64 = 120;
+
+pub fn start_watchdog() {
+    std::thread::spawn(|| loop {
+        std::thread::sleep(std::time::Duration::from_secs(2));
+        let hung = CURRENT_CASE.lock().ok().and_then(|g| {
+            g.as_ref().and_then(|(t0, c)| (t0.elapsed().as_secs() >= CASE_DEADLINE_S).then(|| c.clone()))
+        });
+        if let Some(case) = hung {
+            eprintln!("HANG\t{case}");
+            std::process::exit(3);
+        }
+    });
+}
+
+fn watch<T>(case: &str, f: impl FnOnce() -> T) -> T {
+    if let Ok(mut g) = CURRENT_CASE.lock() {
+        *g = Some((std::time::Instant::now(), case.to_string()));
+    }
+    let r = f();
+    if let Ok(mut g) = CURRENT_CASE.lock() {
+        *g = None;
+    }
+    r
+}
+
 /// (case line as the model must see it, canonical result of the implementation)
 pub fn run_line(line: &str) -> (String, String) {
-    match catch_unwind(AssertUnwindSafe(|| run_op(line))) {
+    match watch(line, || catch_unwind(AssertUnwindSafe(|| run_op(line)))) {
         Ok(Some(r)) => r,
         Ok(None) => (line.to_string(), "bad-case".into()),
         Err(_) => (line.to_string(), "panic".into()),
